@@ -498,6 +498,11 @@ func (b *teletextPageBuffer) dump(lastTime time.Time) (ps []*teletextPage) {
 
 // TODO Add tests
 func (b *teletextPageBuffer) process(d *astits.PESData, t time.Time) (ps []*teletextPage) {
+	// No data
+	if len(d.Data) == 0 {
+		return
+	}
+
 	// Data identifier
 	var offset int
 	dataIdentifier := uint8(d.Data[offset])
@@ -508,8 +513,8 @@ func (b *teletextPageBuffer) process(d *astits.PESData, t time.Time) (ps []*tele
 		return
 	}
 
-	// Loop through data units
-	for offset < len(d.Data) {
+	// Loop through data units (a data unit has at least an id and a length)
+	for offset+2 <= len(d.Data) {
 		// ID
 		id := uint8(d.Data[offset])
 		offset += 1
@@ -541,6 +546,12 @@ func (b *teletextPageBuffer) process(d *astits.PESData, t time.Time) (ps []*tele
 func (b *teletextPageBuffer) parseDataUnit(i []byte, id uint8, t time.Time) {
 	// Check id
 	if id != teletextPESDataUnitIDEBUSubtitleData {
+		return
+	}
+
+	// An EBU teletext data unit is made of the data field (44 bytes): field parity and line offset, framing code,
+	// magazine and packet address (2 bytes) and 40 bytes of packet data
+	if len(i) < 44 {
 		return
 	}
 
